@@ -128,8 +128,8 @@ def p1_p5(prog, rep):
 
     # ---- P2 / P5 --------------------------------------------------------
     does = list(f.calls("doevent"))
-    if len(does) < 4:
-        rep.defer_broken("P2: fewer than 4 doevent() sites")
+    if len(does) < 1:
+        rep.defer_broken("P2: no doevent() site")
     for d in does:
         # stored into rc and compared with 0 in the same condition
         par = [e for e in f.all_elems() if e.is_assign and e.op == "=" and e.kid(1) is not None and e.kid(1).strip() is d]
